@@ -25,10 +25,7 @@ UC = "ImageD11/unitcell.py"
 MS = (-1, -0.5, 0, 0.5, 1, 1.5, 2)
 
 
-def nan_policy(c, m, e):
-    if "isnan" in c.text:
-        return False
-    return vn_py.default_policy(c, m, e)
+nan_policy = vn_py.no_nan_policy
 
 
 def mods(R):
@@ -61,6 +58,16 @@ def symmat(name):
     return a
 
 
+def lineof(mod, name):
+    """line of a function, or of the module-level re-export that stands for it"""
+    if mod.has(name):
+        return mod.func(name).lineno
+    for n in mod.tree.body:
+        if isinstance(n, ast.Assign) and any(isinstance(t, ast.Name) and t.id == name for t in n.targets):
+            return n.lineno
+    raise pyfacts.AnalysisError("anchor vanished: %s:%s" % (mod.rel, name))
+
+
 def r1(R, M):
     R.rule("C10.R1", "symm_to_e6 / e6_to_symm: identical tables in grain.py and finite_strain.py; e6_to_symm(symm_to_e6(M)) == M for "
                      "symmetric M and symm_to_e6(e6_to_symm(e)) == e")
@@ -74,19 +81,19 @@ def r1(R, M):
         outs[mod] = (a, b)
         back = I.call(mod, "e6_to_symm", a)
         ok, why = vn_py.same(back, Ms)
-        R.check(ok, "C10.R1", rel, M[mod].func("e6_to_symm").lineno, "%s.e6_to_symm" % mod, "e6_to_symm(symm_to_e6(M)) == M", "packing tables are not inverse: " + why)
+        R.check(ok, "C10.R1", rel, lineof(M[mod], "e6_to_symm"), "%s.e6_to_symm" % mod, "e6_to_symm(symm_to_e6(M)) == M", "packing tables are not inverse: " + why)
         back2 = I.call(mod, "symm_to_e6", b)
         ok, why = vn_py.same(back2, e)
-        R.check(ok, "C10.R1", rel, M[mod].func("symm_to_e6").lineno, "%s.symm_to_e6" % mod, "symm_to_e6(e6_to_symm(e)) == e", "packing tables are not inverse: " + why)
+        R.check(ok, "C10.R1", rel, lineof(M[mod], "symm_to_e6"), "%s.symm_to_e6" % mod, "symm_to_e6(e6_to_symm(e)) == e", "packing tables are not inverse: " + why)
         ok, why = vn_py.same(b, b.T)
-        R.check(ok, "C10.R1", rel, M[mod].func("e6_to_symm").lineno, "%s.e6_to_symm" % mod, "e6_to_symm(e) is symmetric", why)
+        R.check(ok, "C10.R1", rel, lineof(M[mod], "e6_to_symm"), "%s.e6_to_symm" % mod, "e6_to_symm(e) is symmetric", why)
     ok, why = vn_py.same(outs["grain"][0], outs["finite_strain"][0])
     ok2, why2 = vn_py.same(outs["grain"][1], outs["finite_strain"][1])
-    R.check(ok and ok2, "C10.R1", GR, M["grain"].func("symm_to_e6").lineno, "grain.symm_to_e6", "grain.py and finite_strain.py use the same e6 ordering",
+    R.check(ok and ok2, "C10.R1", GR, lineof(M["grain"], "symm_to_e6"), "grain.symm_to_e6", "grain.py and finite_strain.py use the same e6 ordering",
             "the two modules order the six strain components differently: " + (why or why2))
     want = [Ms[0, 0], Ms[0, 1], Ms[0, 2], Ms[1, 1], Ms[1, 2], Ms[2, 2]]
     ok, why = vn_py.same(outs["grain"][0], np.array(want, dtype=object))
-    R.check(ok, "C10.R1", GR, M["grain"].func("symm_to_e6").lineno, "grain.symm_to_e6", "order e11 e12 e13 e22 e23 e33 (xfab convention)", why)
+    R.check(ok, "C10.R1", GR, lineof(M["grain"], "symm_to_e6"), "grain.symm_to_e6", "order e11 e12 e13 e22 e23 e33 (xfab convention)", why)
 
 
 def dgt(I, M, F, svd):
@@ -257,8 +264,10 @@ def r4(R, M):
         r4_reference_b(R, gm, fn, meth, d[0].args[1])
     for meth, inner in (("eps_grain", "eps_grain_matrix"), ("eps_sample", "eps_sample_matrix")):
         fn = gm.func("grain.%s" % meth)
-        u = ast.unparse(fn)
-        R.check("self.%s(dzero_cell, m)" % inner in u and "symm_to_e6(E)" in u, "C10.R4", GR, fn.lineno, "grain.%s" % meth,
+        rets = [r for r in ast.walk(fn) if isinstance(r, ast.Return) and r.value is not None]
+        R.shape(len(rets) == 1, "C10.R4", GR, "grain.%s" % meth, "a single return")
+        u = pyfacts.resolved_src(fn, rets[0].value, 3, keep=("self", "dzero_cell", "m")).replace(" ", "")
+        R.check(u in ("symm_to_e6(self.%s(dzero_cell,m))" % inner, "symm_to_e6(self.%s(dzero_cell,m=m))" % inner), "C10.R4", GR, fn.lineno, "grain.%s" % meth,
                 "%s = symm_to_e6(%s(dzero_cell, m))" % (meth, inner), "the 6-vector is not the packing of the matrix of the same frame")
     I = vn_py.Interp(M, policy=nan_policy)
     U = vn_py.symarray("U", (3, 3))
